@@ -144,7 +144,7 @@ where
     ///
     /// # Errors
     /// if change state fails.
-    pub(super) fn cancel(&self) -> std::io::Result<()> {
+    pub(crate) fn cancel(&self) -> std::io::Result<()> {
         let current = self.state();
         if CoroutineState::Running == current {
             let new_state = CoroutineState::Cancelled;
